@@ -787,3 +787,29 @@ func (e *Engine) symFloatOp(st *State, op token.Token, x *SymFloatV, b Value) []
 	_, _ = lo, hi
 	panic(e.abort("unsupported float operation %s on integer-valued symbolic float", op))
 }
+
+// concStrFull forks until the string is fully concrete (length and every byte); meant for strings that stem from a
+// handful of vpChoice alternatives.
+func (e *Engine) concStrFull(st *State, s *StrV) []concStrRes {
+	var res []concStrRes
+	for _, c := range e.concStr(st, s) {
+		work := []concStrRes{c}
+		for i := range c.s.B {
+			var next []concStrRes
+			for _, w := range work {
+				if w.s.B[i].IsConst() {
+					next = append(next, w)
+					continue
+				}
+				for _, v := range e.concretize(w.st, w.s.B[i]) {
+					b := append([]*Term{}, w.s.B...)
+					b[i] = e.tb.Const(8, uint64(v.v)&0xff)
+					next = append(next, concStrRes{v.st, &StrV{N: w.s.N, B: b}})
+				}
+			}
+			work = next
+		}
+		res = append(res, work...)
+	}
+	return res
+}
